@@ -187,7 +187,8 @@ def _verify_variant(spec, reg, fsrc, modenv, ptypes, label, res):
                     _frame(ex, spec, s, 'raise:%s@L%s' % (exc, line))
             else:
                 ex.oblige(s, 'safety:no-%s@L%s' % (exc, line),
-                          z3.BoolVal(False), 'safety',
+                          z3.BoolVal(False),
+                          'raises' if spec.get('no_raise_is_property') else 'safety',
                           note='%s raised at line %s is not allowed by the '
                                'contract' % (exc, line))
         else:
